@@ -511,7 +511,94 @@ class Interp:
             alias = self._init_alias(self.func.cls, attr)
             if alias is not None:
                 return alias
+        # a field / property of a record built right here:  plugin = _TagPlugin(entry, factory, settings); plugin.tag
+        if base[0] == "call" and base[1][0] == "glob" and base[1][1] in self.program.classes and not any(a[0] == "star" for a in base[2]) and all(k for k, _v in base[3]):
+            rc = self.program.classes[base[1][1]]
+            flds = self._record_fields(rc)
+            if flds is not None:
+                given = dict(zip([f for f, _d in flds], base[2]))
+                given.update(dict(base[3]))
+                if attr in given:
+                    return given[attr]
+                for f, d in flds:
+                    if f == attr and isinstance(d, ast.Constant):
+                        return ("const", d.value)
+                g = self.program.lookup_method(rc, attr, kind="getter")
+                if g is not None and self.depth < self.MAX_INLINE:
+                    res = self.inline(g, ("attr", base, attr), (), (), path, node)
+                    if res is not None and len(res) == 1 and res[0][0] == "value":
+                        return res[0][2]
+        # self.<record>.<field> where the class publishes exactly that as the property  <p>: return self.<record>.<field>
+        # is the same value as self.<p> (state gathered into one private record, old names kept as properties)
+        if base[0] == "attr" and base[1] == SELF and self.func is not None and self.func.cls is not None:
+            view = self._record_views(self.func.cls).get((base[2], attr))
+            if view is not None and not (self._cur().cls is self.func.cls and self._cur().name == view):
+                return ("attr", SELF, view)
         return lv
+
+    def _record_fields(self, rc):
+        """[(field, default node or None)] of a package NamedTuple / dataclass without an own constructor, else None"""
+        cache = self.program.__dict__.setdefault("_record_fields", {})
+        if rc.qual not in cache:
+            is_nt = any(b in ("ext:typing.NamedTuple",) for b in rc.bases)
+            is_dc = any((x or "").endswith("dataclass") for x in rc.decorators)
+            own_ctor = any(nm in rc.methods for nm in ("__init__", "__new__", "__post_init__"))
+            flds = None
+            if (is_nt or is_dc) and not own_ctor:
+                flds = [(b.target.id, b.value) for b in rc.node.body if isinstance(b, ast.AnnAssign) and isinstance(b.target, ast.Name)]
+            cache[rc.qual] = flds or None
+        return cache[rc.qual]
+
+    def _is_private_record(self, cls, rec):
+        """every store to self.<rec> builds a NamedTuple / dataclass of the package (or is self.<rec>._replace(...))"""
+        stores = []
+        for q in cls.mro:
+            c = self.program.classes.get(q)
+            if c is not None:
+                stores.extend(c.fields.get(rec, []))
+        if not stores or not rec.startswith("_"):
+            return False
+        for st in stores:
+            v = getattr(st, "value", None)
+            if not isinstance(v, ast.Call):
+                return False
+            d = dotted(v.func) or ""
+            if d == "self.%s._replace" % rec:
+                continue
+            mod = getattr(self.program.enclosing_function(cls.module, st), "module", cls.module) if hasattr(self.program, "enclosing_function") else cls.module
+            rc = self.program.classes.get(self.program.resolve(mod, v.func) or "")
+            if rc is None:
+                return False
+            is_nt = any(b in ("ext:typing.NamedTuple", "ext:collections.namedtuple") for b in rc.bases)
+            is_dc = any((x or "").endswith("dataclass") for x in rc.decorators)
+            if not (is_nt or is_dc):
+                return False
+        return True
+
+    def _record_views(self, cls):
+        """{(record attribute, field): property name} for the properties of cls (and its bases) whose getter is exactly
+        `return self.<record>.<field>`"""
+        cache = self.program.__dict__.setdefault("_record_views", {})
+        if cls.qual in cache:
+            return cache[cls.qual]
+        out = {}
+        for q in cls.mro:
+            c = self.program.classes.get(q)
+            if c is None:
+                continue
+            for name, fis in c.methods.items():
+                g = self.program.pick(fis, "getter")
+                if g is None:
+                    continue
+                body = [st for st in g.node.body if not (isinstance(st, ast.Expr) and isinstance(st.value, ast.Constant))]
+                if len(body) == 1 and isinstance(body[0], ast.Return) and isinstance(body[0].value, ast.Attribute):
+                    d = dotted(body[0].value)
+                    if d and d.startswith("self.") and d.count(".") == 2:
+                        _s, rec, fld = d.split(".")
+                        if self._is_private_record(cls, rec):
+                            out.setdefault((rec, fld), name)
+        cache[cls.qual] = out
+        return out
 
     # ---- fields bound once, at construction, to another name -------------------------------------------------
     def _init_only_store(self, cls, attr):
@@ -959,6 +1046,19 @@ class Interp:
                 path.env[key] = ("call", ("glob", "ext:builtins.reversed"), (cur,), (), 0)
                 path.ev("inplace-reverse", key[1], getattr(node, "lineno", 0))
                 return [("value", path, NONE)]
+        # any((a, b)) / all([a, b]) over a display is  bool(a or b) / bool(a and b)  (same operands, same order, same
+        # short-circuit)
+        if isinstance(node.func, ast.Name) and node.func.id in ("any", "all") and ("sym", node.func.id) not in path.env and len(node.args) == 1 and not node.keywords and isinstance(node.args[0], (ast.Tuple, ast.List)) and len(node.args[0].elts) >= 2 and not any(isinstance(e, ast.Starred) for e in node.args[0].elts):
+            cur = self._cur()
+            if self.program.resolve(cur.module if cur is not None else self.module, node.func) == "ext:builtins." + node.func.id:
+                bo = ast.copy_location(ast.BoolOp(op=ast.Or() if node.func.id == "any" else ast.And(), values=list(node.args[0].elts)), node)
+                out = []
+                for k, p, v in self.eval(bo, path):
+                    if k == "raise" or v[0] == "const":
+                        out.append((k, p, v if k == "raise" else ("const", bool(v[1]))))
+                    else:
+                        out.append((k, p, ("call", ("glob", "ext:builtins.bool"), (v,), (), 0)))
+                return out
         nodes = [node.func] + list(node.args) + [kw.value for kw in node.keywords]
         states, raises = self.eval_seq(nodes, path)
         out = list(raises)
@@ -1851,7 +1951,25 @@ class Interp:
     def assign(self, target, value, path, lineno) -> List[Outcome]:
         if isinstance(target, (ast.Tuple, ast.List)):
             elts = target.elts
-            if value[0] in ("tuple", "list") and len(value[1]) == len(elts) and not any(x[0] == "star" for x in value[1]):
+            stars = [i for i, t in enumerate(elts) if isinstance(t, ast.Starred)]
+            if len(stars) == 1:
+                # head, *rest, tail = value:  positions before the star count from the front, those after it from the back
+                k = stars[0]
+                concrete = value[0] in ("tuple", "list") and not any(x[0] == "star" for x in value[1]) and len(value[1]) >= len(elts) - 1
+                vals = []
+                for i in range(len(elts)):
+                    if i < k:
+                        vals.append(value[1][i] if concrete else ("sub", value, ("const", i)))
+                    elif i == k:
+                        n_after = len(elts) - 1 - k
+                        if concrete:
+                            vals.append(("list", tuple(value[1][k : len(value[1]) - n_after])))
+                        else:
+                            vals.append(("sub", value, ("slice", ("const", k), ("const", -n_after) if n_after else NONE, NONE)))
+                    else:
+                        back = i - len(elts)
+                        vals.append(value[1][back] if concrete else ("sub", value, ("const", back)))
+            elif value[0] in ("tuple", "list") and len(value[1]) == len(elts) and not any(x[0] == "star" for x in value[1]):
                 vals = list(value[1])
             else:
                 vals = [("proj", value, i) for i in range(len(elts))]
